@@ -1,9 +1,10 @@
-SPECIFICATION MCSpec
+SPECIFICATION MCSpecX
 CONSTANTS
   Recs = {1, 2}
   Obs = {1, 2}
   Vals = {0, 1, 2}
   MaxDepth = 5
+  Extra = {}
   Dev = "none"
 VIEW MCView
 CONSTRAINT Depth
